@@ -601,8 +601,16 @@ def check_execution(P, prog, e, caps, bounds, sems, names, tlslock):
                                     f"entry again after publishing its clock, so its clock read after the operation is not "
                                     f"dominated", f"C15:hb-own-tick:{kind}"))
                 else:
+                    sig_kind = kind
+                    if kind == "sem" and ev.name in ("acq_await", "acq_poll") and ev.args:
+                        # the acquisition was queued (polled `pending`) by another task than the one completing it: the
+                        # grant updates the clock of the task that was queued, the completing task inherits nothing
+                        queued_by = {x.tid for x in evs[:ev.i] if x.name in ("acq_poll", "acq_await") and x.args[:1] == ev.args[:1]
+                                     and x.res == "pending"}
+                        if queued_by and ev.tid not in queued_by:
+                            sig_kind = "sem-acquire-completed-by-another-task"
                     bad.append((f"{describe(sv)} happens before {describe(ev)} [{kind}] but its clock is not dominated "
-                                f"(components {comps})", f"C15:hb-not-reflected:{kind}"))
+                                f"(components {comps})", f"C15:hb-not-reflected:{sig_kind}"))
 
     # ------------------------------------------------------------------ (3) completeness
     V = {}
